@@ -5,7 +5,7 @@
    lemma (hence the property theorem built on it) no longer checks. *)
 From Coq Require Import String.
 From GA Require Import Base Guards.
-From GA Require Views Chunks SeqOps Builder Hex HeapOps ConstEval.
+From GA Require Views Chunks SeqOps Builder Hex HeapOps ConstEval Serde.
 From GAGen Require Import GenGuards GenConstFns.
 Local Open Scope Z_scope.
 
@@ -182,6 +182,25 @@ Lemma tie_hex_arith d n :
   geval (env1 "max_digits" d) n hex_max_bytes = Hex.max_bytes_of d /\
   geval (env1 "max_digits" d) n hex_max_digits_full = n * 2.
 Proof. split; reflexivity. Qed.
+
+(* ---------------- C17: the checks of visit_seq and the tuple length (src/impl_serde.rs) ---------------- *)
+
+Lemma tie_serde_hint n (h : option Z) :
+  Serde.hint_rejects n h =
+  match h with Some v => ctest (env1 "hint" v) (Z.of_nat n) serde_hint_guard | None => false end.
+Proof. destruct h; reflexivity. Qed.
+
+Lemma tie_serde_full (pos n : nat) :
+  Nat.eqb pos n = ctest (env1 "position" (Z.of_nat pos)) (Z.of_nat n) serde_full_test.
+Proof. cbn. now rewrite of_nat_eqb. Qed.
+
+Lemma tie_serde_probe (h : option Z) :
+  serde_probe_guard = ("!="%string, 0) /\
+  Serde.hint_allows_probe h = match h with Some v => negb (v =? snd serde_probe_guard) | None => true end.
+Proof. split; [reflexivity|]. destruct h as [[| |]|]; reflexivity. Qed.
+
+Lemma tie_serde_tuple_len : serde_tuple_lens = [("serialize_tuple"%string, GN); ("deserialize_tuple"%string, GN)].
+Proof. reflexivity. Qed.
 
 (* ---------------- C18: the const API ---------------- *)
 
